@@ -139,7 +139,7 @@ def parse_trace(path):
     return decisions, events
 
 
-def run_rq(root, args, threads=1, sched=None, trace=None, preload_env=None, cwd=None, timeout=HORIZON, use_d=True, mem_limit=None):
+def run_rq(root, args, threads=1, sched=None, trace=None, preload_env=None, cwd=None, timeout=HORIZON, use_d=True, mem_limit=None, threads_env=False):
     """Run `rapidquilt push <args>` on workspace `root`.
     threads>1: under the scheduler; sched = list of worker ids (schedule script), None/[] = serial default.
     trace: path of a trace file to (re)create; preload_env: extra env for the LD_PRELOAD shim."""
@@ -152,7 +152,13 @@ def run_rq(root, args, threads=1, sched=None, trace=None, preload_env=None, cwd=
             env['RQ_VERIF_TRACE'] = trace
     if preload_env:
         env.update(preload_env)
-    cmd = [common.RQ, 'push'] + (['-d', root] if use_d else []) + ['--threads', str(threads)] + list(args)
+    if threads_env:
+        env['RAPIDQUILT_THREADS'] = str(threads)   # thread count from the environment instead of --threads
+    cmd = [common.RQ, 'push'] + (['-d', root] if use_d else []) + ([] if threads_env else ['--threads', str(threads)]) + list(args)
+    if cwd is None:
+        # with -d the process runs from a neutral directory, so that every path has to honour the working directory option;
+        # without -d the workspace is the current directory
+        cwd = os.path.dirname(os.path.abspath(root)) if use_d else root
     pre = None
     if mem_limit:
         import resource
@@ -160,7 +166,7 @@ def run_rq(root, args, threads=1, sched=None, trace=None, preload_env=None, cwd=
         def pre():
             resource.setrlimit(resource.RLIMIT_AS, (mem_limit, mem_limit))
     try:
-        p = subprocess.run(cmd, env=env, stdout=subprocess.PIPE, stderr=subprocess.PIPE, timeout=timeout, cwd=cwd or root, preexec_fn=pre)
+        p = subprocess.run(cmd, env=env, stdout=subprocess.PIPE, stderr=subprocess.PIPE, timeout=timeout, cwd=cwd, preexec_fn=pre)
         o = Outcome(p.returncode, classify(p.returncode), p.stdout, p.stderr)
     except subprocess.TimeoutExpired as e:
         o = Outcome(None, 'hang', e.stdout or b'', e.stderr or b'')
